@@ -141,7 +141,9 @@ def do_check(mod, pid, modname, seed, args):
             print(f"KNOWN-FINDING: property={pid} {key} -- {kf['what']} ({cnt} runs)")
         exit_code = 0
         replays = []
-        for key in new_keys[:12]:
+        reported = set()
+        budget_keys = new_keys[:16]
+        for key in budget_keys:
             index, case, viol = agg.by_key[key][0]
             small, sviol, digest = case, viol, agg.digests.get(index)
             if not args.no_shrink:
@@ -149,24 +151,38 @@ def do_check(mod, pid, modname, seed, args):
                     small, sviol, digest = shrink.minimise(pool, mod, case, key, viol, digest)
                 except Exception:
                     traceback.print_exc()
+            fkey = sviol["key"]
+            if fkey in reported:
+                continue
+            kf = known.get(fkey)
+            if kf is not None and kf["status"] == "known":
+                # the minimal form of this violation is a listed finding (the original key was a consequence of it)
+                if fkey not in known_seen:
+                    known_seen[fkey] = (kf, len(agg.by_key[key]))
+                    print(f"KNOWN-FINDING: property={pid} {fkey} -- {kf['what']} (seen as {key})")
+                continue
+            reported.add(fkey)
             path = os.path.join(ROOT, "replays", f"{pid}-{seed}-{index}.json")
             os.makedirs(os.path.dirname(path), exist_ok=True)
             with open(path, "w") as f:
                 json.dump({"property": pid, "seed": seed, "index": index, "tier": tier, "violation": sviol,
                            "digest": digest, "case": small, "original_case_size": shrink.size(case),
-                           "minimised_case_size": shrink.size(small),
+                           "minimised_case_size": shrink.size(small), "original_key": key,
                            "occurrences_in_this_run": len(agg.by_key[key])}, f, indent=1, sort_keys=True)
             # confirm in a fresh child before reporting
             st, res = runner.run_in_child(mod.run_case, small)
-            if st != "ok" or key not in [v["key"] for v in res["violations"]]:
-                print(f"HARNESS-ERROR property={pid}: minimised case for {key} does not reproduce")
+            if st != "ok" or fkey not in [v["key"] for v in res["violations"]]:
+                print(f"HARNESS-ERROR property={pid}: minimised case for {fkey} does not reproduce")
                 return 2
-            print(f"  {key}: {sviol['detail']}")
+            print(f"  {fkey}: {sviol['detail']}")
             print(f"VIOLATION property={pid} replay={path}")
             replays.append(path)
             exit_code = 1
-        if len(new_keys) > 12:
-            print(f"  (+{len(new_keys) - 12} further distinct violation keys not minimised)")
+        new_keys = sorted(reported) + new_keys[16:]
+        if len(new_keys) > len(reported):
+            exit_code = 1
+        if len(new_keys) > len(reported):
+            print(f"  (+{len(new_keys) - len(reported)} further distinct violation keys not minimised)")
         wall = time.time() - t0
         if not args.no_evidence:
             write_evidence(mod, pid, tier, seed, n, agg, wall, known_seen, new_keys, pool.workers)
